@@ -265,6 +265,9 @@ InQueue(P, key) ==
          /\ Len(key) = 1 + Len(P) + 1 + Len(QDigits)
          /\ SubSeq(key, 2, Len(P) + 2) = P \o <<45>>
          /\ \A i \in (Len(P) + 3)..Len(key) : IsDigit(key[i])
+         \* the bounds prefix-000..0 and prefix-999..9 themselves are outside
+         /\ \E i \in (Len(P) + 3)..Len(key) : key[i] # 48
+         /\ \E i \in (Len(P) + 3)..Len(key) : key[i] # 57
 
 RECURSIVE IncDigits(_), DecDigits(_)
 IncDigits(d) == IF d = <<>> THEN <<49>>
